@@ -1350,4 +1350,260 @@ Proof.
 Qed.
 
 Lemma has_key_fields ln fs : has_key_ci ln (map field_nv fs) = existsb (name_is ln) fs.
-Proof. unfold has_key_ci. rewrite existsb_map_field. reflexivity. Qed.
+Proof. unfold has_key_ci. induction fs as [|f t IH]; [reflexivity|]. cbn [map existsb]. rewrite IH. reflexivity. Qed.
+
+Lemma hdict_of_lift hs : hdict_of hs = map lift1 hs.
+Proof. unfold hdict_of. apply map_ext. intros [k v]. reflexivity. Qed.
+
+Section OneRequest.
+  Variable cfg : fcfg.
+  Variable r : request.
+  Variable p : parser.
+  Hypothesis Wr : wf_request r = true.
+  Hypothesis Wc : wf_cfg cfg = true.
+  Hypothesis Pa : parsed_as r p.
+
+  Let P := wf_request_parts r Wr.
+  Let hs := map field_nv (all_fields r).
+
+  Lemma parsed_facts :
+    is_request (ty p) = true /\ truthy (method p) = true /\ truthy (version p) = true /\ hdr_inv (headers p) /\
+    http_handler_protocol p = HTTP_PROXY /\ is_https_tunnel p = false /\ parser_inv (new_parser REQUEST_PARSER).
+  Proof.
+    destruct (fields_of_parsed r p Pa) as [_ Eu].
+    split; [now rewrite (pa_ty r p Pa)|]. split.
+    { rewrite (pa_method r p Pa). destruct (token_facts _ (wp_method r P)) as [N _]. destruct (q_method r); [congruence|reflexivity]. }
+    split.
+    { rewrite (pa_version r p Pa). destruct (wp_version r P) as [-> | ->]; reflexivity. }
+    split; [apply (lift_hdr_inv _ hs Eu), nodup_fields, P|]. split; [|split; [exact (pa_tunnel r p Pa)|apply parser_inv_new]].
+    unfold http_handler_protocol. rewrite (pa_version r p Pa). destruct (pa_purl r p Pa) as [u ->].
+    assert (Hv : bytes_eqb (q_version r) HTTP_1_1 || bytes_eqb (q_version r) HTTP_1_0 = true)
+      by (destruct (wp_version r P) as [-> | ->]; reflexivity).
+    rewrite Hv. pose proof (pa_attrs r p Pa) as A. pose proof (wp_abs r P) as Ha.
+    destruct (q_target r); try discriminate. cbn [UrlSpec.expected] in A.
+    assert (Eh : Parser.host p = Some (host_text h)) by congruence. now rewrite Eh.
+  Qed.
+
+  Lemma connect_ok_wf : exists c, connect_upstream (fun _ => None) (Parser.host p) (Parser.port p) = Ok c.
+  Proof.
+    pose proof (pa_attrs r p Pa) as A. pose proof (wp_abs r P) as Ha. pose proof (wp_target r P) as Wt.
+    pose proof (wp_port r P) as Wp.
+    destruct (q_target r) as [|ui h pt pa|]; try discriminate. cbn [UrlSpec.expected] in A. cbn [target_port] in Wp.
+    assert (Eh : Parser.host p = Some (host_text h)) by congruence.
+    assert (Ep : Parser.port p = Some (port_or_default false pt)) by congruence.
+    cbn [wf_target] in Wt. apply andb_true_iff in Wt as [Wt _]. apply andb_true_iff in Wt as [Wt _].
+    apply andb_true_iff in Wt as [_ Wh]. pose proof (wf_host_facts h Wh) as F.
+    rewrite Eh, Ep. eexists. apply connect_upstream_ok; [apply F|exact Wp|apply F].
+  Qed.
+
+  Lemma auth_ok_wf : auth_passes cfg r = true -> before_upstream_connection cfg p = Ok p.
+  Proof.
+    unfold auth_passes, before_upstream_connection. destruct (fields_of_parsed r p Pa) as [_ Eu].
+    rewrite Eu, hdict_of_lift. fold hs. destruct (cf_auth_code cfg) as [[|c0 ct]|]; try reflexivity.
+    intros ->. reflexivity.
+  Qed.
+
+  (* Theorem 1 instantiated: what is queued and what the request object looks like afterwards *)
+  Lemma queued_wf : exists p',
+    queue_request_for_upstream cfg false p = Ok (p', forward_of_parsed cfg false p) /\
+    same_rest p p' /\ is_connection_upgrade p' = is_upgrade_request r.
+  Proof.
+    destruct parsed_facts as (T1 & T2 & T3 & T4 & _).
+    destruct (forward_of_parsed_gen cfg false p T1 T2 T3 T4) as (p' & Q & S & I' & F').
+    exists p'. split; [exact Q|]. split; [exact S|].
+    destruct (hdr_inv_lift _ I') as [Eu' _]. fold (fields_of_parser p') in Eu'.
+    destruct (fields_of_parsed r p Pa) as [Ef _]. rewrite F', Ef in Eu'. fold hs in Eu'.
+    unfold is_connection_upgrade, is_upgrade_request.
+    destruct S as (_ & _ & _ & Sv & _). rewrite Sv, (pa_version r p Pa). cbn [option_eqb].
+    rewrite !(has_header_view p' _ _ Eu'). rewrite !has_key_ci_get.
+    rewrite !get_ci_with_via_hop by (try reflexivity; discriminate).
+    rewrite <- !has_key_ci_get. unfold hs. rewrite !has_key_fields. reflexivity.
+  Qed.
+End OneRequest.
+
+Lemma feed_app cfg ok : forall a st b,
+  feed cfg ok st (a ++ b) = match feed cfg ok st a with Done false st' => feed cfg ok st' b | o => o end.
+Proof.
+  induction a as [|x t IH]; intros st b; [reflexivity|]. cbn [app feed].
+  destruct (handle_data cfg ok st x) as [[|] st'|e st']; [reflexivity|apply IH|reflexivity].
+Qed.
+
+(* THEOREMS 2/3: the first request of a connection, received in any pieces *)
+Theorem first_request cfg r segs :
+  wf_request r = true -> wf_cfg cfg = true -> auth_passes cfg r = true ->
+  nonempty_pieces segs -> concat segs = render_request r ->
+  exists w st', feed cfg true init_state segs = Done false st' /\ upstream_queue st' = [w] /\
+                ref_parse_request w = Some (expected_fwd cfg r) /\
+                conn_ready st' /\ (is_upgrade_request r = false -> h_pipeline st' = None) /\
+                (forall p, parse (new_parser REQUEST_PARSER) (render_request r) = Ok p -> w = forward_of_parsed cfg false p).
+Proof.
+  intros Wr Wc Wa F E. destruct (parse_request r Wr) as (p & Hp & Pa).
+  destruct (parsed_facts r p Wr Pa) as (_ & _ & _ & _ & Hh & Ht & I0).
+  rewrite (feed_first cfg true p segs init_state I0 ltac:(discriminate) F ltac:(rewrite E; exact Hp)
+             (pa_state r p Pa) (pa_buffer r p Pa) Hh).
+  unfold on_request_complete. cbn [h_request set_plugin set_request].
+  rewrite (auth_ok_wf cfg r p Pa Wa). destruct (connect_ok_wf r p Wr Pa) as [c ->]. cbn [negb].
+  rewrite Ht. destruct (queued_wf cfg r p Wr Pa) as (p' & -> & S & Eu).
+  cbn [catch]. eexists. eexists. split; [reflexivity|]. split; [reflexivity|].
+  split; [exact (forward_ref cfg r p Wr Wc Pa)|]. split; [|split].
+  - destruct S as (_ & Ss & _ & _ & _ & _ & _ & _ & _ & St & _).
+    constructor; cbn [h_request h_plugin h_upstream set_upstream set_request set_plugin].
+    + rewrite Ss. exact (pa_state r p Pa).
+    + rewrite St. exact Ht.
+    + reflexivity.
+    + eexists. split; reflexivity.
+  - intros _. reflexivity.
+  - intros p2 H2. congruence.
+Qed.
+
+(* THEOREM 4: a later request of a connection *)
+Theorem later_request cfg r segs st :
+  wf_request r = true -> wf_cfg cfg = true -> conn_ready st -> h_pipeline st = None ->
+  nonempty_pieces segs -> concat segs = render_request r ->
+  exists w st', feed cfg true st segs = Done false st' /\ upstream_queue st' = upstream_queue st ++ [w] /\
+                ref_parse_request w = Some (expected_fwd cfg r) /\
+                conn_ready st' /\ (is_upgrade_request r = false -> h_pipeline st' = None) /\
+                (forall p, parse (new_parser REQUEST_PARSER) (render_request r) = Ok p -> w = forward_of_parsed cfg false p).
+Proof.
+  intros Wr Wc R Hn F E. destruct (parse_request r Wr) as (p & Hp & Pa).
+  destruct (wf_cfg_parts cfg Wc) as (_ & Cu & _).
+  assert (Ec : cur st = new_parser REQUEST_PARSER) by (unfold cur; now rewrite Hn).
+  rewrite (feed_later cfg true p segs st R Cu); try (rewrite Ec).
+  2:{ apply parser_inv_new. } 2:{ discriminate. } 2:{ exact F. } 2:{ rewrite E. exact Hp. }
+  2:{ exact (pa_state r p Pa). } 2:{ exact (pa_buffer r p Pa). }
+  destruct (queued_wf cfg r p Wr Pa) as (p' & -> & S & Eu). cbn [catch].
+  pose proof R as [Rc Rt Rp (up & Ru & Rcl)]. unfold after_forward. rewrite Ru.
+  eexists. eexists. split; [reflexivity|]. split.
+  { unfold upstream_queue. cbn [h_upstream set_pipeline set_upstream queue_upstream up_queue]. now rewrite Ru. }
+  split; [exact (forward_ref cfg r p Wr Wc Pa)|]. split; [|split].
+  - constructor; cbn [h_request h_plugin h_upstream set_upstream set_pipeline]; try assumption.
+    eexists. split; [reflexivity|exact Rcl].
+  - intros Hu. cbn [h_pipeline set_pipeline]. now rewrite Eu, Hu.
+  - intros p2 H2. congruence.
+Qed.
+
+(* ===================================================================================== *)
+(* E. the invariant of HttpParser.headers holds for every parser state reachable by parsing *)
+
+Lemma Forall_dict_set {V} (P : bytes * V -> Prop) k (v : V) d : Forall P d -> P (k, v) -> Forall P (dict_set k v d).
+Proof.
+  intros H Hp. induction d as [|[k' v'] t IH]; cbn [dict_set]; [constructor; [exact Hp|constructor]|].
+  inversion H; subst. destruct (bytes_eqb k k'); constructor; auto.
+Qed.
+
+Lemma hdr_inv_add h k v : hdr_inv h -> hdr_inv (Some (add_header_d h k v)).
+Proof.
+  intros [H1 H2]. unfold hdr_inv, add_header_d. cbn [unopt]. fold (unopt h). split.
+  - apply (dict_wf_set (lower k) (k, v) (unopt h)). exact H1.
+  - apply Forall_dict_set; [exact H2|reflexivity].
+Qed.
+
+Lemma hdr_inv_new t : hdr_inv (headers (new_parser t)).
+Proof. split; constructor. Qed.
+
+Lemma process_header_hdr_inv p raw p' : process_header p raw = Ok p' -> hdr_inv (headers p) -> hdr_inv (headers p').
+Proof.
+  rewrite process_header_eq. cbv zeta. intros H I.
+  destruct (bytes_eqb _ CONTENT_LENGTH).
+  - destruct (int10 _); cbn [bind] in H; [|discriminate]. inv_ok H. cbn [headers set_headers]. now apply hdr_inv_add.
+  - destruct (_ && _); inv_ok H; cbn [headers set_headers]; now apply hdr_inv_add.
+Qed.
+
+Lemma hdr_step_hdr_inv p line p' : hdr_step p line = Ok p' -> hdr_inv (headers p) -> hdr_inv (headers p').
+Proof.
+  unfold hdr_step. destruct (_ || _).
+  - destruct (match strip line with [] => true | _ => false end).
+    + intros H I; inv_ok H. exact I.
+    + intros H I. apply (process_header_hdr_inv _ _ _ H). exact I.
+  - intros H I; inv_ok H. exact I.
+Qed.
+
+Lemma PH_hdr_inv : forall p raw, hdr_inv (headers p) -> forall m r p', PH p raw = Ok (m, r, p') -> hdr_inv (headers p').
+Proof.
+  apply (PH_ind (fun p raw res => hdr_inv (headers p) -> forall m r p', res = Ok (m, r, p') -> hdr_inv (headers p'))).
+  - intros p raw _ I m r p' H; inv_ok H. exact I.
+  - intros; discriminate.
+  - intros p raw line rest p1 _ Hs _ I m r p' H; inv_ok H. eapply hdr_step_hdr_inv; eassumption.
+  - intros p raw line rest p1 _ Hs _ _ IH I m r p' H. eapply IH; [eapply hdr_step_hdr_inv; eassumption|exact H].
+Qed.
+
+Lemma proc_hdr_inv al p raw m r p' : proc al p raw = Ok (m, r, p') -> hdr_inv (headers p) -> hdr_inv (headers p').
+Proof.
+  unfold proc. destruct (HEADERS_COMPLETE <=? state p).
+  - intros H I. destruct (process_body_fields _ _ _ _ _ H) as (_ & -> & _). exact I.
+  - destruct (state p =? INITIALIZED).
+    + intros H I. apply process_line_result in H. inversion H; subst; exact I.
+    + intros H I. eapply PH_hdr_inv; eassumption.
+Qed.
+
+Lemma maybe_complete_headers p raw : headers (maybe_complete p raw) = headers p.
+Proof. unfold maybe_complete. destruct (_ && _); reflexivity. Qed.
+
+Lemma PL_hdr_inv al : forall m p raw, pinv p -> hdr_inv (headers p) -> forall r p', PL al m p raw = Ok (r, p') -> hdr_inv (headers p').
+Proof.
+  apply (PL_ind al (fun m p raw res => hdr_inv (headers p) -> forall r p', res = Ok (r, p') -> hdr_inv (headers p'))).
+  - intros m p raw _ _ I r p' H; inv_ok H. exact I.
+  - intros; discriminate.
+  - intros p raw m' r0 p0 _ _ E _ IH I r p' H. apply (IH ltac:(rewrite maybe_complete_headers; eapply proc_hdr_inv; eassumption) _ _ H).
+Qed.
+
+Theorem parse_hdr_inv al p raw p' : parser_inv p -> hdr_inv (headers p) -> parse_with al p raw = Ok p' -> hdr_inv (headers p').
+Proof.
+  intros [I _] Hi. rewrite parse_with_alt by exact I.
+  destruct (PL al (nz raw) p (bufb p ++ raw)) as [[r q]|e] eqn:E; cbn [bind]; [|discriminate].
+  intros H; inv_ok H. cbn [headers set_buffer_size]. eapply PL_hdr_inv; eassumption.
+Qed.
+
+(* every parser state reached from a new parser by feeding pieces *)
+Theorem pieces_hdr_inv al : forall pieces p p', parser_inv p -> hdr_inv (headers p) ->
+  parse_pieces_with al p pieces = Ok p' -> hdr_inv (headers p') /\ parser_inv p'.
+Proof.
+  induction pieces as [|x t IH]; intros p p' I Hi H; cbn [parse_pieces_with] in H.
+  - inv_ok H. split; assumption.
+  - destruct (parse_with al p x) as [p1|e] eqn:E; cbn [bind] in H; [|discriminate].
+    apply (IH p1 p'); [eapply parse_with_inv; eassumption|eapply parse_hdr_inv; eassumption|exact H].
+Qed.
+
+(* ===================================================================================== *)
+(* F. whole connections                                                                   *)
+
+Definition request_pieces (rs : request * list bytes) : Prop :=
+  wf_request (fst rs) = true /\ nonempty_pieces (snd rs) /\ concat (snd rs) = render_request (fst rs).
+Definition forwarded_as cfg (w : bytes) (rs : request * list bytes) : Prop :=
+  ref_parse_request w = Some (expected_fwd cfg (fst rs)).
+
+Theorem later_requests cfg : wf_cfg cfg = true -> forall rest st,
+  conn_ready st -> h_pipeline st = None ->
+  Forall request_pieces rest ->
+  Forall (fun rs => is_upgrade_request (fst rs) = false) (removelast rest) ->
+  exists st' ws, feed cfg true st (concat (map snd rest)) = Done false st' /\
+                 upstream_queue st' = upstream_queue st ++ ws /\ Forall2 (forwarded_as cfg) ws rest /\ conn_ready st'.
+Proof.
+  intros Wc. induction rest as [|rs t IH]; intros st R Hn F Fu.
+  - exists st, []. cbn [map concat feed]. rewrite app_nil_r. split; [reflexivity|]. split; [reflexivity|]. split; [apply Forall2_nil|exact R].
+  - inversion F as [|? ? (W & Np & Ec) Ft]; subst.
+    destruct (later_request cfg (fst rs) (snd rs) st W Wc R Hn Np Ec) as (w & st1 & F1 & Q1 & P1 & R1 & U1 & _).
+    cbn [map concat]. rewrite feed_app, F1.
+    destruct t as [|rs2 t2].
+    + exists st1, [w]. cbn [map concat feed]. split; [reflexivity|]. split; [exact Q1|].
+      split; [constructor; [exact P1|constructor]|exact R1].
+    + cbn [removelast] in Fu. inversion Fu as [|? ? Fu1 Fu2]; subst.
+      destruct (IH st1 R1 (U1 Fu1) Ft Fu2) as (st' & ws & F2 & Q2 & P2 & R2).
+      exists st', (w :: ws). split; [exact F2|]. split; [rewrite Q2, Q1, <- app_assoc; reflexivity|].
+      split; [constructor; assumption|exact R2].
+Qed.
+
+Theorem connection cfg first rest : wf_cfg cfg = true -> auth_passes cfg (fst first) = true ->
+  Forall request_pieces (first :: rest) ->
+  Forall (fun rs => is_upgrade_request (fst rs) = false) (removelast (first :: rest)) ->
+  exists ws, forward cfg (concat (map snd (first :: rest))) = Some ws /\ Forall2 (forwarded_as cfg) ws (first :: rest).
+Proof.
+  intros Wc Wa F Fu. inversion F as [|? ? (W & Np & Ec) Ft]; subst.
+  destruct (first_request cfg (fst first) (snd first) W Wc Wa Np Ec) as (w & st1 & F1 & Q1 & P1 & R1 & U1 & _).
+  unfold forward. cbn [map concat]. rewrite feed_app, F1.
+  destruct rest as [|rs2 t2].
+  - exists [w]. cbn [map concat feed]. rewrite Q1. split; [reflexivity|constructor; [exact P1|constructor]].
+  - cbn [removelast] in Fu. inversion Fu as [|? ? Fu1 Fu2]; subst.
+    destruct (later_requests cfg Wc (rs2 :: t2) st1 R1 (U1 Fu1) Ft Fu2) as (st' & ws & F2 & Q2 & P2 & _).
+    exists (w :: ws). rewrite F2, Q2, Q1. split; [reflexivity|constructor; assumption].
+Qed.
